@@ -36,6 +36,11 @@ def cell_xml(v, k=1):
             f'table:number-columns-spanned="{cs}" table:number-rows-spanned="{rs}"{rep}>'
             f"<text:p>{val}</text:p></table:table-cell>"
         )
+    if isinstance(v, (list, tuple)) and v and v[0] == "N":
+        # a value cell without any text:p child, as minimal generators write it (legal ODF)
+        kind, val = v[1], v[2]
+        attr = {"float": "office:value", "boolean": "office:boolean-value", "string": "office:string-value"}[kind]
+        return f'<table:table-cell office:value-type="{kind}" {attr}="{val}"{rep}/>'
     if isinstance(v, str):
         return (
             f'<table:table-cell office:value-type="string" office:string-value="{v}"{rep}>'
